@@ -101,16 +101,14 @@ def summarize(pdir, mod):
     return out
 
 
-class FakeResp:
-    def __init__(self, status, payload=None, text=None):
-        self.status_code = status
-        self.is_success = 200 <= status < 300
-        self._payload, self._text = payload, text
-
-    def json(self):
-        if self._text is not None:
-            return json.loads(self._text)
-        return self._payload
+def FakeResp(status, payload=None, text=None, content=None):
+    """A real httpx.Response (so .json()/.is_success behave exactly as with a real server)."""
+    import httpx
+    if content is not None:
+        return httpx.Response(status, content=content)
+    if text is not None:
+        return httpx.Response(status, content=text.encode())
+    return httpx.Response(status, json=payload)
 
 
 def evaluate(case):
@@ -139,6 +137,10 @@ def evaluate(case):
                     return FakeResp(int(mode[6:]), {"data": None})
                 if mode == "non_json":
                     return FakeResp(200, text="<html>")
+                if mode == "invalid_utf8_body":
+                    return FakeResp(200, content=b"\x80\x81 proxy error page")
+                if mode == "latin1_html_body":
+                    return FakeResp(200, content="<html>Erreur: acc\xe8s refus\xe9</html>".encode("latin-1"))
                 if mode == "json_array":
                     return FakeResp(200, [1, 2])
                 if mode == "no_data":
@@ -166,6 +168,21 @@ def evaluate(case):
             schema_arg = None
         else:
             schema_arg = src["files"] if src["kind"] == "dir" else SCHEMA6
+        if case.get("strategy") == "graphqlschema":
+            from ariadne_codegen.main import graphql_schema
+            import contextlib
+            import io
+            sec = {"target_file_path": os.path.join(d, "out_schema.graphql")}
+            sec.update(options)
+            try:
+                with contextlib.redirect_stdout(io.StringIO()):
+                    graphql_schema({"tool": {"ariadne-codegen": sec}})
+            except BaseException as e:  # noqa
+                out.update(status="raised", exc_type=type(e).__name__, error=str(e)[:300], recorded=recorded)
+                return out
+            out["recorded"] = recorded
+            out["schema_only"] = True
+            return out
         try:
             from ariadne_codegen.main import client
             import contextlib
@@ -225,7 +242,7 @@ def build_cases(tier):
     files = {"a.graphql": "\n".join(DEFS[:3]) + "\n", "b.gql": "\n".join(DEFS[3:]) + "\n", "README.md": "not graphql {", "sub/notes.txt": "type Broken {"}
     cases.append(dict(label="dir_with_foreign_files", queries=OPSETS["ops1"], opset="ops1", source={"kind": "dir", "files": files}, tags={"source:dir", "foreign_files"}))
     # failures
-    for mode in ("invalid_url", "status100", "status301", "status404", "status500", "non_json", "json_array", "no_data", "errors", "errors_with_data", "data_not_object", "data_null",
+    for mode in ("invalid_utf8_body", "latin1_html_body", "invalid_url", "status100", "status301", "status404", "status500", "non_json", "json_array", "no_data", "errors", "errors_with_data", "data_not_object", "data_null",
                  "data_without_schema", "truncated_schema", "schema_null"):
         cases.append(dict(label="introspection_failure", queries=OPSETS["ops1"], opset="ops1", source={"kind": "introspection", "answer": mode}, expect="IntrospectionError", tags={f"failure:{mode}"}))
     # headers / TLS flag
@@ -234,8 +251,12 @@ def build_cases(tier):
             opts = {"remote_schema_headers": hv}
             if verify is not None:
                 opts["remote_schema_verify_ssl"] = verify
-            cases.append(dict(label="headers", queries=OPSETS["ops1"], opset="ops1", source={"kind": "introspection", "env": env}, options=opts, want_headers=want, want_verify=True if verify is None else verify,
-                              tags={"headers", "source:introspection", f"verify:{verify}"}))
+            for strat in ("client", "graphqlschema"):
+                cases.append(dict(label="headers", queries=OPSETS["ops1"], opset="ops1", source={"kind": "introspection", "env": env}, options=dict(opts), want_headers=want, want_verify=True if verify is None else verify,
+                                  strategy=strat, tags={"headers", "source:introspection", f"verify:{verify}", f"strategy:{strat}"}))
+    for mode in ("status500", "non_json", "errors", "data_without_schema", "invalid_utf8_body"):
+        cases.append(dict(label="introspection_failure", queries=OPSETS["ops1"], opset="ops1", source={"kind": "introspection", "answer": mode}, expect="IntrospectionError", strategy="graphqlschema",
+                          tags={f"failure:{mode}", "strategy:graphqlschema"}))
     return cases
 
 
@@ -303,13 +324,16 @@ def main(tier):
                 rep.violation("headers_sent", feats, f"sent {rec.get('headers')} expected {case['want_headers']}", desc)
             if rec.get("verify") != case["want_verify"]:
                 rep.violation("verify_flag_sent", feats, f"verify={rec.get('verify')!r} expected {case['want_verify']!r}", desc)
+        if r.get("schema_only"):
+            continue
         base = baselines.get(case["opset"])
         if base is None:
             rep.violation("baseline_missing", feats, "single-file generation failed", desc)
             continue
         compared += 1
         for clause, detail in diff_summaries(base, r["summary"]):
-            rep.violation(clause, feats, detail, desc)
+            ffeat = {"field:" + detail.split(":")[0]} if clause.startswith("input_field_") else set()
+            rep.violation(clause, (feats - {"source:introspection"}) | ffeat | ({"introspection+" + next(iter(ffeat))} if ffeat and "source:introspection" in feats else set()) if clause.startswith("input_field_") else feats, detail, desc)
     rep.sample({"schema_definitions": DEFS, "partitions_enumerated": sum(1 for c in cases if c["label"] == "partition")})
     rep.sample(next(({"partition": c["partition"], "files": sorted(c["source"]["files"])} for c in cases if c["label"] == "partition" and len(c["partition"]) == 3), {}))
     return rep.finish({
